@@ -414,6 +414,8 @@ fn visibility(p: &mut Parser) {
 	let m = p.start();
 	if !p.at_ts(TS![:]) {
 		p.error_with_recovery_set(TS![=]);
+		m.complete(p, VISIBILITY);
+		return;
 	}
 	p.bump();
 	'colons: {
